@@ -1,0 +1,27 @@
+//go:build verif
+
+package chain
+
+// VerifQueueHook, when non-nil, is called by the worker goroutine of every
+// ConcurrentQueue after each select case it executes. It only exists in builds
+// with the verif tag and lets a conformance harness record which case fired,
+// the item concerned and the length of the overflow list at that moment:
+//
+//	"in"      item received from chanIn while the overflow list was empty
+//	"handoff" that item was sent directly to chanOut
+//	"push"    chanOut was not ready, the item was pushed to the overflow list
+//	"enq"     item received from chanIn and appended to a non-empty overflow list
+//	"out"     the front of the overflow list was sent to chanOut and removed
+//	"quit"    the quit channel fired
+//	"exit"    the worker goroutine returned
+//
+// All events of one queue are emitted by its single worker goroutine, so the
+// order of the calls is the order of the operations. The hook must be set
+// before any queue is started and not changed afterwards.
+var VerifQueueHook func(q *ConcurrentQueue, ev string, item interface{}, overflowLen int)
+
+func verifQueueEvent(q *ConcurrentQueue, ev string, item interface{}, overflowLen int) {
+	if h := VerifQueueHook; h != nil {
+		h(q, ev, item, overflowLen)
+	}
+}
